@@ -46,6 +46,19 @@ class Constraint;
 class Blocks;
 typedef std::vector<Constraint*> Constraints;
 
+#ifdef ADAPTAGRAMS_VERIF
+// Verification hook (off by default): observation counters only, no effect
+// on behaviour.
+struct VerifCounters {
+    unsigned long refineSplits;     // splits performed by Solver::refine()
+    unsigned long refineExhausted;  // refine() left its loop because maxtries ran out
+    unsigned long incSplits;        // splits performed by IncSolver::splitBlocks()
+    unsigned long incMerges;        // merges performed by IncSolver::satisfy()
+    unsigned long unsatMarks;       // constraints marked unsatisfiable
+};
+extern VerifCounters verifCounters;
+#endif
+
 /**
  * @brief Static solver for Variable Placement with Separation Constraints 
  *        problem instance
